@@ -219,6 +219,7 @@ def drv_partial(case):
     if len(combos) > case.get("max_interps", 40):
         combos = rng.sample(combos, case.get("max_interps", 40))
     points = []
+    shared = {}
     for k, combo in enumerate(combos):
         interp = {}
         for j, (v, o) in enumerate(zip(lv, combo)):
@@ -227,8 +228,13 @@ def drv_partial(case):
                 interp[v.id] = o if (k + j) % 2 else puan.Bounds(*o)
             else:
                 interp[v.id] = _form(o, k + j, puan)
-        res = m.evaluate_propositions(dict(interp))
-        top = m.evaluate(dict(interp))
+        if k % 2:
+            shared.clear(); shared.update(interp)           # one dictionary object, updated in place between the calls
+            res = m.evaluate_propositions(shared)
+            top = m.evaluate(shared)
+        else:
+            res = m.evaluate_propositions(dict(interp))
+            top = m.evaluate(dict(interp))
         points.append({"interp": proj.pairs_iv(interp, tok), "res_all": proj.pairs_iv(res, tok), "res_top": proj.bounds(top)})
     out = [{"op": "partial", "model": pm, "points": points, "after": proj.node(m, tok)}]
     for c in _compounds(m):
@@ -507,9 +513,11 @@ def _poly(case):
     """fresh ge_polyhedron for case = {"rows": [[b, a1..an], ...], "bounds": [[lo,hi],...]} (+ optional ids / index ids)"""
     import numpy, puan, puan.ndarray as pnd
     ids = case.get("ids") or ["x%d" % (j + 1) for j in range(len(case["bounds"]))]
-    vs = [puan.variable.support_vector_variable()] + [puan.variable(i, tuple(b)) for i, b in zip(ids, case["bounds"])]
+    bd = {"int8": numpy.int8, "int16": numpy.int16}.get(case.get("bounds_dtype"))
+    mkb = (lambda b: tuple(b)) if bd is None else (lambda b: puan.Bounds(bd(b[0]), bd(b[1])))      # bounds taken from a narrow numpy table
+    vs = [puan.variable.support_vector_variable()] + [puan.variable(i, mkb(b)) for i, b in zip(ids, case["bounds"])]
     idx = case.get("index")
-    arr = numpy.array(case["rows"], dtype={"int16": numpy.int16, "int32": numpy.int32}.get(case.get("dtype"), numpy.int64)).reshape(len(case["rows"]), len(vs))
+    arr = numpy.array(case["rows"], dtype={"int8": numpy.int8, "int16": numpy.int16, "int32": numpy.int32}.get(case.get("dtype"), numpy.int64)).reshape(len(case["rows"]), len(vs))
     kw = {"index": [puan.variable(i, (0, 1)) for i in idx]} if idx else {}
     if case.get("dtype"):
         kw["dtype"] = arr.dtype
@@ -576,8 +584,10 @@ def drv_tighten(case):
             elif c == "rowb": res[c] = [[proj.I(x) for x in row] for row in numpy.asarray(P.row_bounds()).tolist()]
             elif c == "colb": res[c] = [[proj.I(x) for x in row] for row in numpy.asarray(P.column_bounds()).tolist()]
             else: res[c] = [proj.I(x) for x in numpy.asarray(P.n_row_combinations).tolist()]
+        size = 1
+        for c in base["cols"]: size *= c["hi"] - c["lo"] + 1
         out.append(dict(base, op="tighten", round=rnd, order=order, tight=res["tight"], rowb=res["rowb"], colb=res["colb"],
-                        ncomb=res["ncomb"], after=_pp(P, tok), model=base))
+                        ncomb=res["ncomb"], after=_pp(P, tok), model=base, wide=size > 3000))
     return out
 
 def _nest(a):
@@ -591,13 +601,14 @@ def drv_classify(case):
     P = _poly(case)
     base = _pp(P, tok)
     out = []
+    narrow = {"int8": numpy.int8, "int16": numpy.int16, "int32": numpy.int32}.get(case.get("dtype"))
     def lst(x):
         x = numpy.asarray(x)
         return proj.I(x) if x.ndim == 0 else _nest((x * 1).tolist())
     def classify(Q, qbase, pts, k):
         arr0 = numpy.array(pts, dtype=numpy.int64)
         # the points in several integer dtypes; 0/1 points also as a bool array
-        dts = [numpy.int64, numpy.int32, numpy.int8]
+        dts = [numpy.int64, numpy.int32, numpy.int8] if narrow is None else [narrow, narrow, numpy.int64]
         if arr0.size and arr0.min() >= 0 and arr0.max() <= 1: dts.append(numpy.bool_)
         arr = arr0.astype(dts[k % len(dts)])
         order = [("sat", Q.ineqs_satisfied), ("sep", Q.separable), ("rowsep", Q.ineq_separate_points)]
@@ -618,7 +629,7 @@ def drv_classify(case):
 
 def _real_id(x):
     """spec id tokens -> real ids of various Python types (non-string and unicode ids are legitimate)"""
-    return {"n7": 7, "uml": "üß", "fz": frozenset({"q"}), "n1": 1, "s1": "1", "nul": "a\x00"}.get(x, x)
+    return {"n7": 7, "uml": "üß", "fz": frozenset({"q"}), "n1": 1, "s1": "1", "nul": "a\x00", "tp": ("t", 1), "tq": ("t", 2)}.get(x, x)
 
 def drv_bridge(case):
     import numpy, puan, puan.ndarray as pnd
@@ -649,15 +660,17 @@ def drv_bridge(case):
     ctx = [v.id for v in vs]
     lst = [_real_id(x) for x in case["list"]]
     lsts = [lst, list(reversed(lst)), lst[:1]]
-    b1 = pnd.boolean_ndarray.from_list(lst, ctx) if lst else None
+    tuple_first = bool(lst) and isinstance(lst[0], tuple)      # boolean from_list documents a tuple as a nested row, integer from_list does not
+    b1 = pnd.boolean_ndarray.from_list(lst, ctx) if (lst and not tuple_first) else None
     i1 = pnd.integer_ndarray.from_list(lst, ctx) if lst else None
     ev = {"op": "lists", "vars": pv, "ctx": [tok(x) for x in ctx], "lst": [tok(x) for x in lst],
-          "bool_arr": [proj.I(x) for x in numpy.asarray(b1).tolist()] if lst else [0] * len(ctx),
+          "bool_ok": not tuple_first,
+          "bool_arr": [proj.I(x) for x in numpy.asarray(b1).tolist()] if b1 is not None else [0] * len(ctx),
           "int_arr": [proj.I(x) for x in numpy.asarray(i1).tolist()] if lst else [0] * len(ctx)}
     if not lst:
         ev["bool_arr"] = [0] * len(ctx); ev["int_arr"] = [0] * len(ctx)
         ev["empty_bool"] = numpy.asarray(pnd.boolean_ndarray.from_list([], ctx)).tolist() == []
-    nl = [l for l in lsts if l]
+    nl = [l for l in lsts if l and not any(isinstance(x, tuple) for x in l)]
     if nl:
         bn = pnd.boolean_ndarray.from_list([list(l) for l in nl], ctx)
         inn = pnd.integer_ndarray.from_list([list(l) for l in nl], ctx)
@@ -679,6 +692,11 @@ def drv_bridge(case):
     if len(vs) >= 2:
         mat = [[(3 * i + 2 * j) % 5 - 2 for j in range(len(vs))] for i in range(2)]
         P = pnd.ge_polyhedron(numpy.array(mat, dtype=numpy.int64), variables=vs, index=[puan.variable("r1"), puan.variable("r2")])
+        dt = [numpy.int64, numpy.int32, numpy.int16][len(vs) % 3]
+        P = pnd.ge_polyhedron(numpy.array(mat, dtype=dt), variables=vs, index=[puan.variable("r1"), puan.variable("r2")], dtype=dt)
+        _ = P.A, P.b                      # read once, edit a coefficient in place, read again: A and b must follow the matrix
+        P[0, 1] += 1
+        mat = [list(r) for r in mat]; mat[0][1] += 1
         A, b = P.A, P.b
         lA, lb = P.to_linalg()
         out.append({"op": "split_Ab", "matrix": mat, "vars": [x["id"] for x in pv], "index": [tok("r1"), tok("r2")],
@@ -746,7 +764,7 @@ def drv_select(case):
     for prios in case["prios_list"]:
       for mode in case.get("solvers", ["capture", "exact", "none", "raise", "mixed"]):
         for only_leafs in case.get("leaf_opts", (False, True)):
-            if mode in ("none", "raise", "mixed") and only_leafs: continue
+            if mode == "raise" and only_leafs: continue
             cfg = m                                   # the SAME configurator object serves every request (history)
             direct = proj.cfgpoly(cfg.ge_polyhedron, tok)
             if mode == "exact" and _box_of_cols(direct["cols"]) > (1 << 12): continue
